@@ -594,6 +594,13 @@ fn shapes() -> Vec<(&'static str, ReqSpec, Vec<Pick>, Vec<(String, String)>)> {
             vec![pick(0, &[("a_name", true)], &[], None), pick(2, &[("a_zip", false)], &["p_sal"], None)],
             vec![],
         ),
+        // unrevealed referents named with another spacing / case than the schema has
+        (
+            "unrevealed-other-spacing",
+            ReqSpec::new(NONCE).attr("a_name", "NAME").attr("a_zip", "zipcode").group("g", &["ZIP CODE", "sal ary"]),
+            vec![pick(2, &[("a_name", true), ("a_zip", false), ("g", false)], &[], None)],
+            vec![],
+        ),
         // a credential that serves a predicate only, alone
         (
             "predicate-only",
@@ -719,6 +726,19 @@ fn common_families(r: &mut Rng, w: &World, thorough: bool) -> Vec<VJob> {
             }
             let honest = with_shape("honest", fmt, w, &s);
             jobs.push(honest.clone());
+            // what the verifier holds: registry definitions without any status list of theirs (an empty list of lists),
+            // no lists argument at all, no registry definitions, definitions under another id
+            if s.2.iter().any(|p| p.list.is_some()) {
+                for (cname, lists, regs) in [("ctx:status-lists-empty", Some(vec![]), Some(vec![vw::REG_ID.to_string()])), ("ctx:status-lists-absent", None, Some(vec![vw::REG_ID.to_string()])),
+                                             ("ctx:registry-definitions-absent", Some(vec![0usize, 1, 2]), None), ("ctx:registry-definition-under-other-id", Some(vec![0, 1, 2]), Some(vec!["other:reg".to_string()])),
+                                             ("ctx:registry-definitions-empty", Some(vec![0, 1, 2]), Some(vec![]))] {
+                    let mut j = honest.clone();
+                    j.class = cname.into();
+                    j.ctx.lists = lists;
+                    j.ctx.reg_defs = regs;
+                    jobs.push(j);
+                }
+            }
             for (name, sib) in siblings(&s.1) {
                 let mut j = honest.clone();
                 j.class = format!("cross-request:{}", name.split(':').next().unwrap());
@@ -1011,6 +1031,19 @@ fn c02_jobs(r: &mut Rng, w: &World, thorough: bool) -> Vec<VJob> {
                 let mut verify = build.clone();
                 match iv_on { "second" => verify = verify.local("a_sex", iv), "first" => verify = verify.local("a_name", iv), _ => {} }
                 let mut j = job("two-credentials-one-registry", fmt, &build, &verify, vec![pick(1, &[("a_name", true)], &["p_age"], l1), pick(8, &[("a_sex", true)], &[], l8)], w);
+                j.base = Base::StripIntervals;
+                jobs.push(j);
+            }
+        }
+    }
+    // ... the second one is shown with the state of an OLD list while naming the timestamp of a list in which it is revoked
+    for fmt in [Fmt::Legacy, Fmt::W3C] {
+        for (iv_on, iv) in [("second", (Some(150u64), Some(350u64))), ("global", (Some(150), Some(350))), ("second", (None, Some(350)))] {
+            let build = ReqSpec::new(NONCE).attr("a_name", "name").attr("a_sex", "sex");
+            let verify = if iv_on == "second" { build.clone().local("a_sex", iv).local("a_name", (None, Some(350))) } else { build.clone().global(iv) };
+            for ts in [300u64, 200] {
+                let mut j = job("two-credentials-one-registry:stale-state-newer-timestamp", fmt, &build, &verify, vec![pick(8, &[("a_name", true)], &[], Some(0)), pick(1, &[("a_sex", true)], &[], Some(0))], w);
+                j.muts = if fmt == Fmt::Legacy { vec![Mut::IdentSet(1, "timestamp", json!(ts))] } else { vec![Mut::WIdent(1, "timestamp", json!(ts))] };
                 j.base = Base::StripIntervals;
                 jobs.push(j);
             }
